@@ -405,8 +405,8 @@ impl Monitor for C19 {
         N_DIRECTED
             + match t {
                 Tier::Tiny => 12,
-                Tier::Quick => 12_000,
-                Tier::Thorough => 200_000,
+                Tier::Quick => 720000,
+                Tier::Thorough => 7200000,
             }
     }
     fn rule(&self) -> &'static str {
